@@ -208,6 +208,7 @@ class _Box:
         self.lo: Dict[tuple, Tuple[float, bool]] = {}
         self.hi: Dict[tuple, Tuple[float, bool]] = {}
         self.ne: Dict[tuple, set] = {}
+        self.rel: Dict[tuple, frozenset] = {}
 
     def add(self, q, op, c) -> None:
         if op == "eq":
@@ -283,6 +284,13 @@ def _classify(atom, pol, params, extra):
             return ("iv", a, op, cb)
         if ca is not None and cb is None and _input_determined(b, params, extra):
             return ("iv", b, {"lt": "gt", "le": "ge", "gt": "lt", "ge": "le", "eq": "eq", "ne": "ne"}[op], ca)
+        if ca is None and cb is None and _input_determined(a, params, extra) and _input_determined(b, params, extra):
+            # an order / equality relation between two input-determined quantities: one of '<', '=', '>' per ordered pair
+            allowed = {"lt": {"<"}, "le": {"<", "="}, "eq": {"="}, "ne": {"<", ">"}, "gt": {">"}, "ge": {">", "="}}[op]
+            if repr(a) > repr(b):
+                a, b = b, a
+                allowed = {{"<": ">", ">": "<", "=": "="}[x] for x in allowed}
+            return ("rel", (a, b), frozenset(allowed))
         # equality of an input-determined quantity with a string / None-free constant: valid requests of both kinds exist
         for x, y in ((a, b), (b, a)):
             if y[0] == "const" and isinstance(y[1], str) and _input_determined(x, params, extra) and atom[1] in ("eq", "ne"):
@@ -341,6 +349,7 @@ def _decide(lv, box0, params, extra, assumed, depth, venv=None):
         conj = list(assumed) + list(conj)
         box = _Box()
         box.lo, box.hi, box.ne = dict(box0.lo), dict(box0.hi), {k_: set(v_) for k_, v_ in box0.ne.items()}
+        box.rel = dict(box0.rel)
         free: Dict[tuple, bool] = {}
         ok = True
         outside = None
@@ -355,6 +364,10 @@ def _decide(lv, box0, params, extra, assumed, depth, venv=None):
                 continue
             if k[0] == "iv":
                 box.add(k[1], k[2], k[3])
+            elif k[0] == "rel":
+                box.rel[k[1]] = box.rel.get(k[1], frozenset("<=>")) & k[2]
+                if not box.rel[k[1]]:
+                    ok = False
             else:
                 if free.get(k[1], k[2]) != k[2]:
                     ok = False
@@ -446,6 +459,8 @@ def check_function(ctx: Ctx, rule: str, modname: str, fname: str, spec: dict) ->
                     k = _classify(av, True, params, extra)
                     if k is not None and k[0] == "iv":
                         box0.add(k[1], k[2], k[3])
+                    elif k is not None and k[0] == "rel":
+                        box0.rel[k[1]] = box0.rel.get(k[1], frozenset("<=>")) & k[2]
                 lv = peval(lv, venv) if venv else lv
                 lv = _simplify(lv)
                 if lv == FALSE or (lv[0] == "const" and not lv[1]):
